@@ -16,8 +16,13 @@ LEVEL_TEXT = ('Unbounded Lean theorems: (a) ALL SIZES of the hand-modelled class
               'L>=1 (qubit lists derived from the stabilizers; periodic identification proved canonical), RhombicPlanarCode '
               'Lx,Ly>=2 Lz>=1, RhombicToricCode all L_i even >=2, HollowPlanar3DCode L>=1 (with or without a cavity), '
               'RotatedToric3DCode Lx,Ly>=2 not both odd, Lz>=1 (k=2 even x even, k=1 with a defect line; explicit family of '
-              'n-k independent generators for both parities) -- all with the full valid_code incl. rank; more as they are '
-              'merged): the assembled matrices '
+              'n-k independent generators for both parities) -- all with the full valid_code incl. rank; Color3DCode all L_i '
+              'even >= 2 (wf of the derived qubit list, commutation, the 9x9 pairing table of strings and membranes; periodic '
+              'wrap removed through centred differences, overlaps as kernel-evaluated finite functions; rank by instances), '
+              'HollowRhombicCode Lx,Ly>=2, Lz>=3 (wf, commutation incl. the key-count selection rule of the triangle loop, '
+              'pairing; rank by instances, and the NEGATIVE theorems thin_hole_family_x/_y/_z: for EVERY size with a hole one '
+              'layer thin (Lx=3, Ly,Lz>=6; Ly=4, Lx>=5, Lz>=6; Lz=4, Lx>=5, Ly>=6) an undeclared second logical pair exists, '
+              'rank <= n-2, not a valid [[n,1]] code - the known finding): the assembled matrices '
               'exist and satisfy ValidCodeL n k (commutation, logical commutation, pairing table, GF(2) rank n-k) for every '
               'lattice size, with closed forms for n, k, stabilizers and get_deformation; (b) the executable validity checker '
               'is sound for every code; commutation+pairing force rank <= n-k for every code; every per-qubit permutation of '
